@@ -282,4 +282,25 @@ PROPS = {
                              "regex_matches": 50000, "regex_non_matches": 50000, "limit_rejects": 1000}},
         "assumptions": COMMON_ASSUMPTIONS + ["compiled-size acceptance is compared with regex-automata itself (built in the harness): what is checked is that the limits are forwarded to the documented knobs, not regex-automata's own accounting"],
     },
+    "C05": {
+        "rule": ("Every parse (filters and value expressions) is checked for: no panic, completion within 10 s + 1 ms/byte "
+                 "(re-measured 3 times alone before being believed), and for errors: line number < number of input "
+                 "lines, echoed line equal to that input line, span inside the line and on character boundaries, "
+                 "Display output consistent with the hooked span. token-soup: 1-14 random tokens from a 130-token "
+                 "alphabet (all operators and aliases, brackets, quote/escape/raw-string fragments, numbers at the "
+                 "i64 edges, IP fragments, combining / astral / NUL / U+2028 / BOM characters); mutated: generated "
+                 "valid filters cut at a random character and with 1-4 insert/delete/duplicate/truncate/swap edits or "
+                 "byte corruption + lossy decoding, also embedded in multi-line input; truncations: 8 feature-rich "
+                 "filters cut at EVERY character position (x4 continuations); pathologies: 57 structured inputs of "
+                 "10^5 repetitions (flat chains, every nesting construct closed/unclosed, index suffixes, brace lists, "
+                 "raw strings with 0/1/255/256/10^5 hashes, leading newlines, errors at the first/last byte, long "
+                 "literals/identifiers/numbers, 10^5 call arguments), each in its own process on a 2 MiB-stack thread "
+                 "(8 MiB unoptimised) with the stack high-water mark recorded. distinct_nontrivial = distinct inputs."),
+        "quick": [st("rel", timeout=1800)],
+        "thorough": [st("rel", timeout=7200), st("dbg", timeout=7200), st("asan", timeout=7200)],
+        "floors": {"quick": {"evaluations": 150000, "distinct_nontrivial": 60000, "children_run": 57,
+                             "parse_errors": 100000, "parsed_ok": 3000}},
+        "assumptions": COMMON_ASSUMPTIONS + ["'never fails to terminate' is restated as bounded progress (10 s + 1 ms per input byte); 'bounded stack' as no overflow on a 2 MiB thread (optimised) / 8 MiB (unoptimised)"],
+        "technique": "runtime monitoring: total-function oracle (no panic / process survives / time budget / error well-formedness via hooked span and Display) over token soup, mutated filters, exhaustive truncations and isolated pathological inputs",
+    },
 }
